@@ -142,7 +142,7 @@ static const char *ev_name(int e)
     case EV_RRD:   snprintf(b, sizeof b, "sdo-read(1001h:00)"); break;
     case EV_GET:   snprintf(b, sizeof b, "get(err=%d)", E->a); break;
     case EV_CNT:   snprintf(b, sizeof b, "cnt()"); break;
-    case EV_NMT:   snprintf(b, sizeof b, "nmt(%s)", E->a == 1 ? "start" : E->a == 2 ? "stop" : "pre-op"); break;
+    case EV_NMT:   snprintf(b, sizeof b, "nmt(%s)", E->a == 1 ? "start" : E->a == 2 ? "stop" : E->a == 130 ? "reset communication" : E->a == 129 ? "reset node" : "pre-op"); break;
     case EV_START: snprintf(b, sizeof b, "node-start()"); break;
     case EV_LONG:  snprintf(b, sizeof b, "85 x burst (255 activations) on errors %d,%d", E->a, E->b); break;
     case EV_BURST: snprintf(b, sizeof b, "burst(clr %d,set %d,clr %d,set %d+usr,clr %d,set %d)", E->a, E->a, E->a, E->a, E->b, E->b); break;
@@ -243,7 +243,7 @@ static int build(int cfg)
         if (big) ev_add(EV_GET, BIGIDX, 0);
         ev_add(EV_CNT, 0, 0);
     }
-    if (nmtev) { ev_add(EV_NMT, 2, 0); ev_add(EV_NMT, 1, 0); ev_add(EV_NMT, 128, 0); }
+    if (nmtev) { ev_add(EV_NMT, 2, 0); ev_add(EV_NMT, 1, 0); ev_add(EV_NMT, 128, 0); ev_add(EV_NMT, 130, 0); ev_add(EV_NMT, 129, 0); }
     if (idev)  { ev_add(EV_ID, 0, 0); ev_add(EV_ID, 1, 0); }
     return NEV;
 }
@@ -480,6 +480,14 @@ static int step(int ev)
         uint8_t d[2] = { E->a, NODEID };
         w_rx(&Node, 0x000, 2, d);
         M.nmt = (uint8_t)CONmtGetMode(&Node.Nmt);                 /* the NMT machine itself is C09's subject: follow it */
+        if (E->a == 129 || E->a == 130) {
+            /* an NMT reset clears every error without an emergency frame (C20: "emergencies cleared"); register, count and the frames of
+             * later activations follow from that, and the history still lists the most recent activations.  The boot-up frame is not ours. */
+            int k = 0;
+            for (int i = 0; i < OBS.ntx && i < W_MAX_TX; i++) if (!(OBS.tx[i].id == 0x700u + NODEID && OBS.tx[i].dlc == 1 && OBS.tx[i].d[0] == 0)) OBS.tx[k++] = OBS.tx[i];
+            if (OBS.ntx <= W_MAX_TX) OBS.ntx = k;
+            memset(M.active, 0, sizeof M.active);
+        }
         mc_log("    NMT command %d -> mode %d\n", E->a, M.nmt);
         check_frames(&x, 0, what);
         break; }
